@@ -1,3 +1,5 @@
+//go:build go1.26
+
 // Package hpkeref is a second implementation of RFC 9180 HPKE in base mode, written from the RFC
 // text (sections 4, 4.1, 5.1, 5.2, 7.1) plus draft-connolly-cfrg-xwing-kem (X-Wing, kem_id
 // 0x647a) and draft-ietf-hpke-pq (ML-KEM-768 0x0041, ML-KEM-1024 0x0042, whose shared secret is
@@ -516,4 +518,15 @@ func Open(s Suite, skR, info, encCt []byte) ([]byte, error) {
 		return nil, err
 	}
 	return c.OpenSeq(0, nil, encCt[ki.Nenc:])
+}
+
+// X25519 points of small order (u-coordinates, little-endian) and their non-canonical aliases.
+var LowOrderX25519 = []string{
+	"0000000000000000000000000000000000000000000000000000000000000000",
+	"0100000000000000000000000000000000000000000000000000000000000000",
+	"e0eb7a7c3b41b8ae1656e3faf19fc46ada098deb9c32b1fd866205165f49b800",
+	"5f9c95bca3508c24b1d0b1559c83ef5b04445cc4581c8e86d8224eddd09f1157",
+	"ecffffffffffffffffffffffffffffffffffffffffffffffffffffffffffff7f",
+	"edffffffffffffffffffffffffffffffffffffffffffffffffffffffffffff7f",
+	"eeffffffffffffffffffffffffffffffffffffffffffffffffffffffffffff7f",
 }
